@@ -623,3 +623,29 @@ Proof. destruct x; xq; try discriminate. intros Hq. split; [exact I|]. apply Qeq
 
 Lemma xq_leb (a b : XQ) : finite a -> finite b -> leb a b = true -> val a <= val b.
 Proof. destruct a, b; simpl; try contradiction. intros _ _ Hq. apply Qle_bool_iff. exact Hq. Qed.
+
+(* adjacent siblings, neither collapsed through *)
+Theorem margin_collapse_adjacent P pre it_i co_i it_j co_j post :
+  fin_params P -> Forall (item_ok P) pre ->
+  position_is_absolute (it_position it_i) = false -> fin_item P it_i co_i -> co_ct co_i = false ->
+  val (item_off_y it_i) == 0 -> wf_ms (co_bottom co_i) ->
+  position_is_absolute (it_position it_j) = false -> fin_item P it_j co_j ->
+  val (item_off_y it_j) == 0 -> wf_ms (co_top co_j) ->
+  exists rs_pre r_i r_j rs_post,
+    io_results (block_inflow P (pre ++ (it_i, co_i) :: (it_j, co_j) :: post)) = rs_pre ++ r_i :: r_j :: rs_post /\
+    length rs_pre = length pre /\
+    (~ mixed_ms (ir_top_set r_j) ->
+     val (ir_y r_j) - (val (ir_y r_i) + val (s_h (ir_size r_i))) ==
+       val (ms_resolve (ms_collapse_with_set (ir_bottom_set r_i) (ir_top_set r_j)))).
+Proof.
+  intros HP Hpre Hri Hfi Hcti Hoi Wbi Hrj Hfj Hoj Wtj.
+  destruct (margin_collapse_through P pre it_i co_i [] it_j co_j post HP Hpre Hri Hfi Hcti Hoi Wbi (Forall_nil _) Hrj Hfj Hoj Wtj)
+    as (rs_pre & r_i & rs_m & r_j & rs_post & E & L1 & L2 & _ & M).
+  destruct rs_m; [|discriminate L2]. cbn [app] in E. unfold through_union in M. cbn [fold_left] in M.
+  exists rs_pre, r_i, r_j, rs_post. split; [exact E|]. split; [exact L1 | exact M].
+Qed.
+
+Theorem resolve_spec_list (l : list Q) :
+  exists r, ms_resolve (fold_left (fun acc m => ms_collapse_with_margin acc (Fin m)) l (@ms_ZERO XQ _)) = Fin r /\
+            r == max0 l + min0 l.
+Proof. exists (q_res (q_of_list l)). split; [apply resolve_spec | apply resolve_spec_q]. Qed.
